@@ -19,6 +19,8 @@ EXTRA = {
     "C04": (("gen_tables_step.py",), ()),
     "C08": (("gen_tables_step.py",), ()),
     "C09": (("gen_tables_step.py",), ()),
-    "C10": (("gen_tables_step.py",), ()),
+    # C10 also: the tonal classes over parameter streams (tonal.py -> Generated/TablesSteptonal.v, Pat/StepTonalSrc.v,
+    # Props/C10StreamsSrc.v), whose method calls on Key / Scale objects run the bodies of Generated/TablesTonal.v
+    "C10": (("gen_tables_step.py", "gen_tables_tonal.py", "gen_tables_steptonal.py"), ()),
     "C12": (("gen_tables_step.py",), ()),
 }
